@@ -86,3 +86,44 @@ func ZvC04_S2_History() {
 	vrt.Assert(cnt == vrt.B2I(found), "C04/S2/Traverse-each-present-key-once")
 	vrt.Cover("C04/S2/end")
 }
+
+// ZvC04_LongSpine: degenerate trees beyond the shape bound — 70 keys inserted in ascending or in
+// descending order (a right or a left spine of depth 70) under either comparator, symbolic values;
+// Traverse must still visit every key once in comparator order and Get must find each. Keys are
+// concrete here, so nothing forks: one path per (order, comparator).
+func ZvC04_LongSpine() {
+	const N = 70
+	desc := vrt.Choice(2) == 1
+	kind := vrt.Choice(2)
+	comp := func(a, b int) bool { return a < b }
+	if kind == 1 {
+		comp = func(a, b int) bool { return a > b }
+	}
+	b := New[int, int](comp)
+	vals := make([]int, N+1)
+	for i := 1; i <= N; i++ {
+		k := i
+		if desc {
+			k = N + 1 - i
+		}
+		vals[k] = vrt.Int()
+		b.Upsert(k, vals[k])
+	}
+	vrt.Assert(b.Size() == N, "C04/long-spine/Size")
+	var gk, gv []int
+	vrt.Assert(!vrt.Try(func() {
+		b.Traverse(func(it Item[int, int]) { gk = append(gk, it.Key); gv = append(gv, it.Val) })
+	}), "C04/long-spine/Traverse-no-panic")
+	vrt.Assert(len(gk) == N, "C04/long-spine/Traverse-visits-every-key")
+	ok := true
+	for i := range gk {
+		want := i + 1
+		if kind == 1 {
+			want = N - i
+		}
+		ok = vrt.And(ok, gk[i] == want, gv[i] == vals[want])
+	}
+	vrt.Assert(ok, "C04/long-spine/Traverse-in-comparator-order-with-values")
+	it, err := b.Get(N / 2)
+	vrt.Assert(vrt.And(err == nil, it.Val == vals[N/2]), "C04/long-spine/Get")
+}
